@@ -11,6 +11,7 @@ import (
 type Generator struct{ outputs map[string]string }
 
 func (g *Generator) DoFile(name string) error {
+	_ = g.RootName(name)
 	if name == "" {
 		return os.ErrInvalid
 	}
@@ -29,4 +30,21 @@ func (g *Generator) Names() []string {
 		out = append(out, k)
 	}
 	return out
+}
+
+// CONTROL B-DET3: the file path reaches identifier synthesis without filepath.Base
+type Caser struct{}
+
+func (c *Caser) Identifierize(s string) string { return s }
+
+func (g *Generator) RootName(fileName string) string {
+	c := &Caser{}
+	return c.Identifierize(fileName)
+}
+
+func (g *Generator) Run(fileName string) (string, error) {
+	if err := g.DoFile(fileName); err != nil {
+		return "", err
+	}
+	return g.RootName(fileName), nil
 }
